@@ -633,8 +633,14 @@ func NewAddressPubKey(serializedPubKey []byte, net *chaincfg.Params) (*AddressPu
 	switch serializedPubKey[0] {
 	case 0x02, 0x03:
 		pkFormat = PKFCompressed
+	case 0x04:
+		pkFormat = PKFUncompressed
 	case 0x06, 0x07:
 		pkFormat = PKFHybrid
+	default:
+		// bchec.ParsePubKey masks the low bit of the format byte and so
+		// also lets 0x05 through as an uncompressed key.
+		return nil, errors.New("invalid public key format byte")
 	}
 
 	return &AddressPubKey{
